@@ -116,6 +116,25 @@ impl<'a> Tracer<'a> {
         }
         true
     }
+    /// the moves a freshly created generator returns on the board this history has led to (C01 along
+    /// histories with undos: judged by the model's own state, see Trace_Engine TMoves)
+    pub fn moves(&mut self, board: &mut Board) -> bool {
+        let side = board.turn();
+        let r = guarded(|| {
+            let mut gen = MoveGenerator::with_cache_capacity(1 << 12);
+            gen.generate_moves(board, side).iter().map(|m| Mv::of(m).to_json()).collect::<Vec<_>>()
+        });
+        match r {
+            Ok(mv) => {
+                self.emit(json!({"ev": "Moves", "mv": mv, "panic": ""}), board);
+                true
+            }
+            Err(p) => {
+                self.emit(json!({"ev": "Moves", "mv": [], "panic": p}), board);
+                false
+            }
+        }
+    }
     pub fn toggle(&mut self, board: &mut Board) {
         board.toggle_turn();
         self.emit(json!({"ev": "Toggle"}), board);
@@ -259,6 +278,9 @@ fn walk(tr: &mut Tracer, rng: &mut Rng, gen: &mut MoveGenerator, start: Board, p
             last_own = [None, None];
         }
         if rng.chance(1, 8) && !tr.clone_check(&h.board, h.stack.last()) {
+            return;
+        }
+        if rng.chance(1, 7) && !tr.moves(&mut h.board) {
             return;
         }
         if style == "walk" && rng.chance(1, 5) {
@@ -486,6 +508,14 @@ fn edit_history(tr: &mut Tracer, rng: &mut Rng, ops: usize) {
 }
 
 /// record-trace <out> --scenario walk|clock|repetition|scripts --seed N --games G --plies P [--seeds file] [--sum]
+const CASTLE_READY: [&str; 5] = [
+    "r3k2r/pppppppp/8/8/8/8/PPPPPPPP/R3K2R w KQkq -",
+    "r3k2r/p1pp1ppp/8/1p2p3/1P2P3/8/P1PP1PPP/R3K2R w KQkq -",
+    "r3k2r/2p2p2/8/1P1pP1P1/1p1Pp1p1/8/2P2P2/R3K2R b KQkq -",
+    "r3k2r/8/8/3pP3/3Pp3/8/8/R3K2R w KQkq -",
+    "r3k2r/p6p/8/1P4P1/1p4p1/8/P6P/R3K2R w KQkq -",
+];
+
 pub fn main(args: &[String]) {
     let out_path = &args[0];
     let seed = arg_u64(args, "--seed", 1);
@@ -516,7 +546,11 @@ pub fn main(args: &[String]) {
         }
     } else {
         for g in 0..games {
-            let start = if seeds.is_empty() || (scenario == "walk" && g % 3 == 0) || (scenario == "clock" && g % 4 == 2) {
+            let start = if scenario == "walk" && g % 3 == 1 {
+                // castling available at once on both wings, pawns about to meet: rights are lost, en passant
+                // arises, and undo bursts come back to positions in which castling is legal
+                parse_fen(CASTLE_READY[rng.below(CASTLE_READY.len())]).setup()
+            } else if seeds.is_empty() || (scenario == "walk" && g % 3 == 0) || (scenario == "clock" && g % 4 == 2) {
                 Board::starting_position()
             } else {
                 let p = &seeds[rng.below(seeds.len())];
